@@ -41,7 +41,11 @@ def base_pool():
              'true', 'null', 'café', -1, 2, 2.0]
     small = [None, True, 1, 1.0, '1', False, 0]
     keys = ['1', 'a', 1, 1.0, True, None, 2.5, 'true', 'null', 0, False, '']
+    # integers that no double tells apart (neighbours beyond 2**53 and around 2**63), and their float images
+    atoms += [2 ** 53, 2 ** 53 + 1, float(2 ** 53), 2 ** 63 - 1, 2 ** 63 + 1, float(2 ** 63),
+              1700000000000000001, 1700000000000000002, -(2 ** 53) - 1, -(2 ** 53), 10 ** 400]
     out = list(atoms)
+    out += [[2 ** 53 + 1], [2 ** 53], {'n': 2 ** 63 + 1}, {'n': 2 ** 63}, {2 ** 53 + 1: 'k'}, {2 ** 53: 'k'}]
     for a in small:
         out.append([a])
         out.append((a,))
